@@ -189,6 +189,18 @@ def translatePts (v : P3 K) (pts : List (P3 K)) : List (P3 K) := pts.map (fun p 
 def extrudedHexes (quads : List (List Nat)) (cl : DiskCls) (c rp u : P3 K) (h k dg amount : K) : List (Hex K) :=
   loftHexes quads (diskPts cl c rp u h k dg) (translatePts (smul amount u) (diskPts cl c rp u h k dg)) c (add c (smul amount u))
 
+/-- `ExtrudedShape(sketch, amount)` on any mapped sketch with positions `pts` and normal `u` -/
+def extrudeOf (quads : List (List Nat)) (pts : List (P3 K)) (c u : P3 K) (amount : K) : List (Hex K) :=
+  loftHexes quads pts (translatePts (smul amount u) pts) c (add c (smul amount u))
+
+/-- `ExtrudedShape(WrappedDisk(center, corner, radius, normal), amount)` -/
+def wrappedExtrudedHexes (quads : List (List Nat)) (c corner u : P3 K) (h dg radius wn amount : K) : List (Hex K) :=
+  extrudeOf quads (wrappedPts c corner u h dg radius wn) c u amount
+
+/-- `ExtrudedShape(Oval(center_1, center_2, normal, radius), amount)` -/
+def ovalExtrudedHexes (quads : List (List Nat)) (c1 c2 u : P3 K) (h k dg radius wd amount : K) : List (Hex K) :=
+  extrudeOf quads (ovalPts c1 c2 u h k dg radius wd) c1 u amount
+
 /-- `Cylinder` / `SemiCylinder(axis_point_1, axis_point_2, radius_point_1)`: `sketch_class(axis_point_1,
     radius_point_1, axis)`, second sketch = `Translation(axis)`; `wl` witnesses `norm(axis)` -/
 def cylinderHexes (quads : List (List Nat)) (cl : DiskCls) (p1 p2 rp : P3 K) (wl h k dg : K) : List (Hex K) :=
@@ -217,6 +229,17 @@ def linCoord (a b : K) (n i : Nat) : K := a + (i : K) * ((b - a) / (n : K))
 def gridFace (x1 y1 x2 y2 : K) (n m ix iy : Nat) : List (P3 K) :=
   [⟨linCoord x1 x2 n ix, linCoord y1 y2 m iy, 0⟩, ⟨linCoord x1 x2 n (ix + 1), linCoord y1 y2 m iy, 0⟩,
    ⟨linCoord x1 x2 n (ix + 1), linCoord y1 y2 m (iy + 1), 0⟩, ⟨linCoord x1 x2 n ix, linCoord y1 y2 m (iy + 1), 0⟩]
+
+/-- `ExtrudedShape(Grid(...), amount)`: the block over the face `grid[iy][ix]`, extruded along `(0, 0, 1) · amount`
+    (the normal of a grid with `point_1 < point_2`) -/
+def gridHex (x1 y1 x2 y2 : K) (n m ix iy : Nat) (a : K) : Hex K :=
+  ⟨⟨linCoord x1 x2 n ix, linCoord y1 y2 m iy, 0⟩, ⟨linCoord x1 x2 n (ix + 1), linCoord y1 y2 m iy, 0⟩,
+   ⟨linCoord x1 x2 n (ix + 1), linCoord y1 y2 m (iy + 1), 0⟩, ⟨linCoord x1 x2 n ix, linCoord y1 y2 m (iy + 1), 0⟩,
+   ⟨linCoord x1 x2 n ix, linCoord y1 y2 m iy, 0 + a⟩, ⟨linCoord x1 x2 n (ix + 1), linCoord y1 y2 m iy, 0 + a⟩,
+   ⟨linCoord x1 x2 n (ix + 1), linCoord y1 y2 m (iy + 1), 0 + a⟩, ⟨linCoord x1 x2 n ix, linCoord y1 y2 m (iy + 1), 0 + a⟩⟩
+
+def gridHexes (x1 y1 x2 y2 : K) (n m : Nat) (a : K) : List (Hex K) :=
+  (List.range m).flatMap (fun iy => (List.range n).map (fun ix => gridHex x1 y1 x2 y2 n m ix iy a))
 
 /-- all faces, row by row (`Grid.faces`) -/
 def gridFaces (x1 y1 x2 y2 : K) (n m : Nat) : List (List (P3 K)) :=
@@ -277,6 +300,25 @@ def handleGeo (quadsOf : String → Option (List (List Nat))) (op : String) (arg
       let r2 ← parseRat? r2; let wr ← parseRat? wr
       if wl ≤ 0 || wr ≤ 0 then none else
       some (showP3s ((frustumHexes quads p1 p2 rp wl h k dg r2 wr).flatMap Hex.toList))
+  | "c11.extrw", [c, corner, u, h, dg, radius, wn, amount] => do
+      let quads ← quadsOf "WrappedDisk"
+      let c ← parseP3? c; let corner ← parseP3? corner; let u ← parseP3? u
+      let h ← parseRat? h; let dg ← parseRat? dg; let radius ← parseRat? radius; let wn ← parseRat? wn
+      let amount ← parseRat? amount
+      if !nearUnit u || wn ≤ 0 then none else
+      some (showP3s ((wrappedExtrudedHexes quads c corner u h dg radius wn amount).flatMap Hex.toList))
+  | "c11.extro", [c1, c2, u, h, k, dg, radius, wd, amount] => do
+      let quads ← quadsOf "Oval"
+      let c1 ← parseP3? c1; let c2 ← parseP3? c2; let u ← parseP3? u
+      let h ← parseRat? h; let k ← parseRat? k; let dg ← parseRat? dg
+      let radius ← parseRat? radius; let wd ← parseRat? wd; let amount ← parseRat? amount
+      if !nearUnit u || wd ≤ 0 then none else
+      some (showP3s ((ovalExtrudedHexes quads c1 c2 u h k dg radius wd amount).flatMap Hex.toList))
+  | "c11.extrg", [x1, y1, x2, y2, n, m, amount] => do
+      let x1 ← parseRat? x1; let y1 ← parseRat? y1; let x2 ← parseRat? x2; let y2 ← parseRat? y2
+      let n ← parseNat? n; let m ← parseNat? m; let amount ← parseRat? amount
+      if n == 0 || m == 0 then none else
+      some (showP3s ((gridHexes x1 y1 x2 y2 n m amount).flatMap Hex.toList))
   | "c11.gridpts", [x1, y1, x2, y2, n, m] => do
       let x1 ← parseRat? x1; let y1 ← parseRat? y1; let x2 ← parseRat? x2; let y2 ← parseRat? y2
       let n ← parseNat? n; let m ← parseNat? m
